@@ -289,6 +289,10 @@ class Gen:
             db.floats.append((lab, v))
         # syntax: implication + constants / constructors / notations
         x, y = decl[0], decl[1]
+        if rng.random() < 0.4:
+            # other variables may be declared before or between the ones a statement uses (their relative order is kept)
+            i, j = sorted(rng.sample(range(n), 2))
+            x, y = decl[i], decl[j]
         if not canonical and rng.random() < 0.5:
             x, y = y, x          # a valid database may state the syntax axiom with the variables in either role
         self.add('imp-is-pattern', 'syntax', ('\\imp', ('v', x), ('v', y)))
@@ -324,6 +328,9 @@ class Gen:
             self.add(self.synlabel[nm], 'syntax', lhs)
             self.add('n%d-is-sugar' % i, 'sugar', (lhs, rhs))
         P0, P1, P2 = ('v', decl[0]), ('v', decl[1]), ('v', decl[2 % n])
+        if n >= 4 and rng.random() < 0.4:
+            i, j, l = sorted(rng.sample(range(n), 3))
+            P0, P1, P2 = ('v', decl[i]), ('v', decl[j]), ('v', decl[l])
         if not canonical and rng.random() < 0.6:
             perm = [P0, P1, P2] if n >= 3 else [P0, P1]
             rng.shuffle(perm)
